@@ -30,6 +30,11 @@ HUFE = "ruzstd::huff0::huff0_encoder"
 SPEC = c14.SPEC
 
 
+def booleval_atom(c):
+    from .. import booleval
+    return booleval.norm_atom(c)
+
+
 def _nibble_order(ctx, RH, rb, direct, m):
     from .. import ieval
     ix = hq.Index(rb)
@@ -104,6 +109,12 @@ def _nibble_order(ctx, RH, rb, direct, m):
     ctx.check(not bad, RH, "reader::nibble-order", rb["file"], "weight t is nibble t of the payload: even weights in the high nibble, odd weights in the low nibble",
               observed=bad[:3])
 
+
+# "literals encoded in one or four streams decode to the same literals": the reader of the four-stream jump table is
+# C01.layout.jump-table; reported here as C13.reader
+INCLUDES = [
+    ("c01", "C13.reader", {"rules": ("C01.layout.jump-table",)}, 2),
+]
 
 def run(ctx):
     crate = ctx.crate()
@@ -362,6 +373,63 @@ def run(ctx):
         ctx.check("if with_table { self.write_table() }" in s and "encode_stream(self.table, self.writer, data)" in s, RS, "encode::single-stream", e1["file"],
                   "single stream: optional table, then the stream")
     ctx.guard(RS, "streams", streams)
+    # a previous table may be reused (treeless literals) only if it has a code for every symbol the current literals use
+    RU = "C13.dom.reuse-covers-symbols"
+
+    def reuse():
+        import re
+        cb = ctx.hir(HUFE + "::HuffmanTable::can_encode")
+        ix = hq.Index(cb)
+        cf = hq.Canon(cb, force=True)
+        loops = [x for x in hq.find(cb["body"], lambda x: x.get("k") == "For")]
+        zipc = cf(loops[0]["iter"]) if len(loops) == 1 else ""
+        m = re.match(r"^core::iter::traits::iterator::Iterator::zip\((.*), (.*)\)$", zipc)
+        pos = {}
+        if m:
+            for i_, part in enumerate(m.groups()):
+                pos[str(i_)] = "other" if "$0.codes" in part else ("self" if "self.codes" in part else "?")
+
+        def side(e):
+            c = cf(e)
+            z = re.search(r"Iterator::zip.*\[\*\]\.(\d)\.1$", c)
+            if z:
+                return pos.get(z.group(1), "?")
+            return "other" if "$0.codes" in c else ("self" if "self.codes" in c else "?")
+        found = []
+        for g in ix.all_guards() if False else []:
+            pass
+        # the refusing exit inside the loop: `other has a code (bits != 0) && self has none (bits == 0)` -> None
+        refusals = []
+        for x in hq.find(cb["body"], lambda x: x.get("k") == "If" and loops and loops[0]["sp"][0] <= x["sp"][0] <= loops[0]["sp"][1]):
+            if not (ix.diverges(x["then"]) and "None" in H.show(x["then"])):
+                continue
+            atoms = []
+            for cc in ix.split_and(x["cond"]):
+                e = hq.peel(cc)
+                if e.get("k") == "Binary" and e["op"] in ("==", "!="):
+                    l, r = hq.peel(e["l"]), hq.peel(e["r"])
+                    v, other_e = (l, r) if H.lit_val(l) == 0 else ((r, l) if H.lit_val(r) == 0 else (None, None))
+                    if v is not None:
+                        atoms.append((e["op"], side(other_e)))
+            refusals.append(sorted(atoms))
+        want = [sorted([("!=", "other"), ("==", "self")])]
+        ctx.check(refusals == want, RU, "can_encode::refuses-when-self-lacks-a-code-other-uses", cb["file"],
+                  "self.can_encode(other) must return None when some symbol has a code in `other` (bits != 0) but none in `self` (bits == 0)",
+                  observed={"zip": pos, "refusals": refusals}, expected=want)
+        lens = [g for g in ix.all_guards() if "Vec::len($0.codes)" in (g.get("raw") or "") and "Vec::len(self.codes)" in (g.get("raw") or "")]
+        ok = len(lens) == 1 and booleval_atom(lens[0]["raw"]) == ("(alloc::vec::Vec::len(self.codes) < alloc::vec::Vec::len($0.codes))", True)
+        ctx.check(ok, RU, "can_encode::refuses-longer-alphabet", cb["file"], "a table with more symbol slots than self cannot be encoded by self",
+                  observed=[g.get("raw") for g in lens])
+        # the caller asks the *old* table whether it can encode the table built from the *current* literals
+        lb = ctx.hir("ruzstd::encoding::blocks::compressed::compress_literals")
+        lcf = hq.Canon(lb, force=True)
+        calls = [x for x in hq.find(lb["body"], lambda x: x.get("k") == "MethodCall" and x["name"] == "can_encode")]
+        got = [(lcf(x["recv"]), lcf(x["args"][0])) for x in calls]
+        ok = len(got) == 1 and got[0][0].startswith("$1@Option::Some") and got[0][1].endswith("HuffmanTable::build_from_data($0)")
+        ctx.check(ok, RU, "compress_literals::old-table-asked-about-new-table", lb["file"],
+                  "last_table.can_encode(&table built from these literals)", observed=got)
+    ctx.guard(RU, "reuse", reuse)
+
     # a treeless literals section is decoded with the table of the last *transmitted* description: the compressor may
     # only remember a table whose description it actually wrote and kept (same rule instances as C02.pair.huffman-commit)
     from . import c02
